@@ -181,6 +181,13 @@ check_dft(const json& c)
     if (r.failed())
       return r;
   }
+  // known finding C19-F4: inverse_fourier_1d_for_real_data_corrupting_input tests "n % 2" on the HALF length and so calls error()
+  // for a real array of (even) length 2, which fourier_for_real_data accepts
+  if (x.len[2] == 2 && !no_exclude())
+    {
+      vf::stats().count("excluded C19-F4 (inverse real-data transform, last length 2)");
+      return Result::pass();
+    }
   {
     const stir::Array<D, float> back = stir::inverse_fourier_for_real_data(H, sign);
     Nd bn;
@@ -356,6 +363,13 @@ check_dftconv(const json& c)
       if (dlen[q] > P[q] || b[q] - a[q] + 1 > P[q] || b[q] < a[q] || dlen[q] < 1 || olen[q] < 1)
         return Result::reject("data or kernel longer than the padded length");
     }
+  // known finding C19-F4 (see check_dft): the inverse real-data transform refuses length 2, so a kernel of padded length 2 in
+  // the last dimension is accepted by set_kernel() and then fails with error() when the filter is applied
+  if (P[2] == 2 && !no_exclude())
+    {
+      ++vf::stats().excluded_known;
+      return Result::reject("known finding C19-F4 (padded length 2 in the last dimension)");
+    }
   // the true kernel on [a,b]
   int klen[3];
   for (int q = 0; q < 3; ++q)
@@ -452,18 +466,18 @@ struct ConvND<3>
   typedef stir::ArrayFilter3DUsingConvolution<float> type;
 };
 
-//! known finding C19-F1: is_trivial() of the 2-D/3-D classes looks only at the outermost kernel length and at
-//! element [0][0]([0]): a kernel with outer range [0,0] is taken for the identity when its element at the origin is 1
-//! (and the origin element is read even when the inner ranges do not contain 0).
+//! known finding C19-F1: is_trivial() of the 2-D/3-D classes looks only at the outermost kernel length/min index and at
+//! element [0][0]([0]): a kernel with outer range [0,0] is taken for the identity when its element at the origin is 1,
+//! and the origin element is read even when the inner ranges do not contain 0 (out-of-range read).
 template <int D>
 inline bool
-f1_class(const int* kmin, const int* klen)
+f1_class(const Nd& KT)
 {
-  bool inner_single = true;
-  for (int q = 3 - D + 1; q < 3; ++q)
-    if (!(klen[q] == 1 && kmin[q] == 0))
-      inner_single = false;
-  return klen[3 - D] == 1 && kmin[3 - D] == 0 && !inner_single;
+  if (!(KT.len[3 - D] == 1 && KT.mn[3 - D] == 0))
+    return false;
+  if (!KT.has(0, 0, 0))
+    return true; // out-of-range read of the origin element
+  return KT.size() > 1 && KT.at(0, 0, 0) == 1.;
 }
 
 template <int D>
@@ -489,13 +503,13 @@ check_convnd(const json& c)
       if (klen[q] < 1 || dlen[q] < 1 || olen[q] < 1)
         return Result::reject("empty kernel/data/output");
     }
-  if (f1_class<D>(kmin, klen) && !no_exclude())
-    {
-      ++vf::stats().excluded_known;
-      return Result::reject("known finding C19-F1 (kernel with outer range [0,0])");
-    }
   Nd KT(kmin, klen);
   fill_kernel(KT, c.at("kseed").get<uint64_t>(), c.at("kpat").get<int>());
+  if (f1_class<D>(KT) && !no_exclude())
+    {
+      ++vf::stats().excluded_known;
+      return Result::reject("known finding C19-F1 (kernel with outer range [0,0] and origin element 1 or outside the inner ranges)");
+    }
   Nd x(dmin, dlen);
   fill_data(x, c.at("seed").get<uint64_t>(), c.at("pat").get<int>());
   vf::stats().cls(vf::cat("conv", D, "d"));
